@@ -140,9 +140,22 @@ def chain_start(toks: List[Tok], k: int) -> int:
         return k
 
 
-def mechanical_rewrites(text: str, toks: List[Tok], r12: Optional[str] = None, open_closures=()):
+def mechanical_rewrites(text: str, toks: List[Tok], r12: Optional[str] = None, open_closures=(), result_form=False):
     edits = []
     n = len(toks)
+    # return type of the function: `-> Option<..>` decides which form R12 uses for `?`
+    ret_option = False
+    d0 = 0
+    for j, tj in enumerate(toks):
+        if tj.text in ("(", "[", "<"):
+            d0 += 1
+        elif tj.text in (")", "]", ">") and not (j > 0 and toks[j - 1].text == "-"):
+            d0 -= 1
+        elif tj.text == "{" and d0 <= 0:
+            break
+        elif tj.text == "->" and d0 <= 0:
+            ret_option = j + 1 < n and toks[j + 1].text == "Option"
+            break
     # R19: RECV.splitn(N, 'c') with a char literal separator (str::splitn; the slice form takes a closure)
     #      ->  vx_str_splitn(RECV, N, 'c'), the trusted wrapper of contracts/15_stdspecs.rs (str::splitn is generic over the
     #      unstable Pattern trait, whose generic associated type Verus cannot declare).  First, so that its opening text precedes
@@ -191,7 +204,11 @@ def mechanical_rewrites(text: str, toks: List[Tok], r12: Optional[str] = None, o
             k = chain_start(toks, i - 1)
             # nested `?` inside the same chain would overlap; not present in this code base
             edits.append((toks[k].start, toks[k].start, "(match ", "R12a"))
-            edits.append((t.start, t.end, " { Ok(vx_v) => vx_v, Err(vx_e) => return Err(::core::convert::From::from(vx_e)) })", "R12b"))
+            if ret_option:
+                # in a function that returns Option<..> the operand of `?` is an Option:  E?  ->  match E { Some(v) => v, None => return None }
+                edits.append((t.start, t.end, " { Some(vx_v) => vx_v, None => return None })", "R12b"))
+            else:
+                edits.append((t.start, t.end, " { Ok(vx_v) => vx_v, Err(vx_e) => return Err(::core::convert::From::from(vx_e)) })", "R12b"))
         # R11: RECV.all(F)  ->  the loop `Iterator::all` is defined to be (short-circuiting conjunction)
         if t.kind == "ident" and t.text == "all" and i >= 1 and toks[i - 1].text == "." and i + 1 < n and toks[i + 1].text == "(":
             close = match_close(toks, i + 1)
@@ -324,6 +341,13 @@ def mechanical_rewrites(text: str, toks: List[Tok], r12: Optional[str] = None, o
             "or_else": (" { Ok(vx_o) => Ok(vx_o), Err(%s) => (" % pat, ") })"),
             "map_or": (" { Some(%s) => (" % pat, "), None => %s })" % dflt),
         }[name]
+        if result_form and name in ("map", "and_then", "map_or"):
+            # second attempt for a function in which the Option forms did not type-check: the receiver is a Result
+            head, tail = {
+                "map": (" { Ok(%s) => Ok(" % pat, "), Err(vx_e) => Err(vx_e) })"),
+                "and_then": (" { Ok(%s) => (" % pat, "), Err(vx_e) => Err(vx_e) })"),
+                "map_or": (" { Ok(%s) => (" % pat, "), Err(_) => %s })" % dflt),
+            }[name]
         edits.append((toks[k].start, toks[k].start, "(match ", "R20a"))
         edits.append((toks[b0 - 3].start, toks[b2].end, head, "R20b"))
         edits.append((toks[be].start, toks[be].end, tail, "R20c"))
@@ -444,8 +468,9 @@ def find_closures(toks: List[Tok], lo: int, hi: int):
 
 
 class Splicer:
-    def __init__(self, repo: str, contracts_dir: str, force_external=None):
+    def __init__(self, repo: str, contracts_dir: str, force_external=None, r20_result=None):
         self.force_external = dict(force_external or {})   # fn key -> reason: emit unverified from the start
+        self.r20_result = set(r20_result or ())             # fn keys in which R20 uses the Result forms of map / and_then / map_or
         self.repo = repo
         self.cdir = contracts_dir
         self.sources: Dict[str, rsparse.SourceFile] = {}
@@ -1048,7 +1073,7 @@ class Splicer:
                 # the body was rejected by the verifier / by rustc in the verification context (a stand-in trait bound, a rewrite
                 # that no longer fits): it is not verified anyway, so it is left out altogether
                 edits.append((toks[body_open].start, toks[body_close].end, "{ unimplemented!() }", "stub", {}))
-        for (s, e, rep, rule) in ([] if external else mechanical_rewrites(text, toks, kv.get("r12", self.defaults.get("r12")), open_cl)):
+        for (s, e, rep, rule) in ([] if external else mechanical_rewrites(text, toks, kv.get("r12", self.defaults.get("r12")), open_cl, key in self.r20_result)):
             meta = {}
             if rule == "R11c":
                 m = re.search(r"/\*@ALL(\d+)@\*/", rep)
